@@ -163,8 +163,6 @@ def field_constraints(draw, col, n, inside=False):
                 v = draw(st.sampled_from(numeric_bounds(
                     stat, atype, [0.01, 0.5])))
             prec = draw(st.sampled_from(PRECISIONS))
-            if prec is not None and atype == 'date':
-                prec = None     # see DESIGN: date + precision is C09's
             c[k] = v if prec is None else {'value': v, 'precision': prec}
         elif k == 'sign':
             c[k] = draw(st.sampled_from(SIGNS))
@@ -193,7 +191,8 @@ def field_constraints(draw, col, n, inside=False):
         # "type": "date" makes the loader read min/max as date strings; a
         # numeric bound beside it is outside the documented format
         c['type'] = ['date']
-    return c
+    # JSON objects are unordered: the order of kinds within a field is free
+    return dict(draw(st.permutations(list(c.items()))))
 
 
 @st.composite
